@@ -537,6 +537,7 @@ func (s *scope) Close() error {
 			// Another caller is closing, or has closed, the root: return
 			// only once that shutdown is complete (as sync.Once does), so
 			// that every caller can rely on Close as a barrier.
+			verifhook.Yield("close.wait-for-winner")
 			<-s.closeDone
 		}
 		return nil
